@@ -8,6 +8,7 @@ import (
 	"fmt"
 	"io"
 	"log"
+	"os"
 	"sort"
 	"strings"
 	"testing"
@@ -23,14 +24,15 @@ func TestMain(m *testing.M) {
 	pbt.Main(m, "C04")
 }
 
-// Findings on the unchanged tree that wait for a decision (props/c04/FINDINGS.md): the generators
-// steer around their signature and count it, exactly as for a listed known finding.
-var pending = map[string]bool{keyReverseWhole: true}
+// Findings on the unchanged tree that wait for a decision (props/c04/FINDINGS.md) would be listed here:
+// the generators steer around the signature of a pending or known finding and count it. None at present
+// (`goalign subseq -r` over the whole alignment was repaired by 711de4d and is judged unrestricted).
+var pending = map[string]bool{}
 
-func steerAround(key string) bool { return pbt.Known(key) || pending[key] }
-
-// `goalign subseq -r` with a window that covers the whole alignment (empty complement) dereferences nil
-const keyReverseWhole = "subseq-reverse-whole-alignment"
+// VERIF_NO_PENDING=1 judges the pending signatures strictly (to try a candidate repair in a scratch copy)
+func steerAround(key string) bool {
+	return pbt.Known(key) || (pending[key] && os.Getenv("VERIF_NO_PENDING") == "")
+}
 
 // ---- model helpers ------------------------------------------------------------------------
 
@@ -432,6 +434,19 @@ func checkInverse(o *pbt.Outcome, a gen.Ali, s, n int) error {
 	}
 	if acc != nil {
 		if err := sameAli(acc, takeCols(rows, want), fmt.Sprintf("complement of (%d,%d)", s, n)); err != nil {
+			return err
+		}
+	}
+	// growing an extracted window must not reach back into the alignment it was taken from
+	if !gen.SameRows(gen.Snapshot(al), rows) || al.Length() != l {
+		return fmt.Errorf("assembling the complement of (%d,%d) from extracted windows changed the source alignment: %s", s, n, gen.Show(gen.Snapshot(al)))
+	}
+	if n > 0 && winValid(l, s, n) {
+		again, e := al.SubAlign(s, n)
+		if e != nil {
+			return fmt.Errorf("second SubAlign(%d,%d): %v", s, n, e)
+		}
+		if err := sameAli(again, takeCols(rows, span(s, s+n)), fmt.Sprintf("SubAlign(%d,%d) after the complement was assembled", s, n)); err != nil {
 			return err
 		}
 	}
